@@ -13,10 +13,17 @@ EXPLANATION = (
     "tag/projection functions, types an uninterpreted sort (any nesting); list loops use the "
     "index-recursive ghost function ListOk; recursion is proved terminating by the type rank. The "
     "built-in scalar input coercers are verified against their domains (shared with C16), with "
-    "exceptional postconditions. Stage 1 restricts T to types without input objects (NoObj).")
+    "exceptional postconditions. Stage 1 restricts T to types without input objects (NoObj). "
+    "Literal pair (all input types, valid schema assumed): coerce_input_literal and "
+    "validate_input_literal_impl are verified to be total (no exception but a user out_type's / "
+    "the callback's) and to take the same decisions on the cases a one-sided edit breaks: a null "
+    "literal under non-null, a non-object literal for an input object type, and OneOf - anything "
+    "but exactly one field *entry* makes the coercer return Undefined and the validator report. "
+    "value_to_literal: every provided field of an input object (None included) gets an entry in "
+    "the literal; only Undefined ones are left out (per-iteration contract of the field loop).")
 UNVERIFIED = [
-    "the input-object branch of both functions (unknown/required/default fields, OneOf) - stage 2",
-    "coerce_input_literal / validate_input_literal_impl (literal pair) and ValuesOfCorrectTypeRule",
+    "the input-object branch of the value pair (unknown/required/default fields, OneOf) - stage 2",
+    "full agreement (iff) of the literal pair beyond the listed decisions; ValuesOfCorrectTypeRule",
     "value_to_literal round trip, replace_variables, get_variable_values / coerce_variable_values",
     "GraphQLEnumType.coerce_input_value (modelled as a leaf coercer function)",
 ]
